@@ -60,10 +60,10 @@ var unsupported = map[string][]string{
 }
 
 type spec struct {
-	dir      string
-	only     map[string]bool
-	yields   bool
-	pkgonly  bool // plain-access instrumentation for reassigned package variables only (the hot sequential packages of the yields build)
+	dir     string
+	only    map[string]bool
+	yields  bool
+	pkgonly bool // plain-access instrumentation for reassigned package variables only (the hot sequential packages of the yields build)
 }
 
 func main() {
